@@ -172,7 +172,7 @@ def build(tier, seed):
                               "operator.itemgetter(*idx)(items) == items[idx[0]] for one index, the tuple of the items otherwise",
                               "numpy logical_or.reduce / logical_xor.reduce over the qubit axis are OR / parity (confirmed by the enumerations of (a))"]
     plan.unverified = ["recursive_largest_first (graph_colouring.py) beyond the end-to-end runs of (c)", "observables_to_binary_matrix / pauli_to_binary / binary_to_pauli "
-                       "beyond the letter codes checked in (a)", "diagonalize_qwc_pauli_words / diagonalize_qwc_groupings (the diagonalisation half of the property)",
+                       "beyond the letter codes checked in (a)", "diagonalisation of groups of more than 2 words / on more than 3 wires",
                        "more than N observables in the symbolic contracts (no proof for all sizes)", "optimality of the colouring (not part of the property)",
                        "_compute_partition_indices_rlf beyond the end-to-end runs"]
     plan.dropped = ["docstrings, annotations, exception messages", "the rustworkx < 0.15 branches (new_rx is True in this environment)"]
@@ -699,4 +699,150 @@ def build(tier, seed):
     plan.add(native_ob("C52/group_observables:group_observables+compute_partition_indices/sampled-lists[3..7 observables]", e2e_sampled,
                        "seeded random lists with duplicates and identities, all grouping types and methods", "group_observables", bounded=True, timeout=1500))
     plan.fn_under_contract(FILE, "group_observables")
+
+    # =================================================================================================== (d) diagonalisation of qwc words / groups
+    UFILE = "pennylane/pauli/utils.py"
+    from vf.symx.ring import Poly
+
+    def pmat(m):
+        return poly_matrix(np.asarray(m))
+
+    def pm_eq(A, B):
+        return A.shape == B.shape and all((x - y).is_zero() for x, y in zip(A.flat, B.flat))
+
+    def pm_dag(A):
+        out = np.empty(A.shape[::-1], dtype=object)
+        for (i, j), x in np.ndenumerate(A):
+            out[j, i] = x.conj()
+        return out
+    REFP = {ch: poly_matrix({"I": G.I2, "X": G.X, "Y": G.Y, "Z": G.Z}[ch]) for ch in LETTERS}
+    FACTORS = ["-", "I", "X", "Y", "Z", "XX", "ZZ", "IY"]           # per wire: absent / explicit identity / letter / cancelling or padded products
+
+    def build(spec, wires):
+        """operator with the given factor string per wire (in wire order) + the exact matrix it denotes on `wires`"""
+        ops, mats = [], []
+        for wr, f in zip(wires, spec):
+            m = pm_eye(2)
+            for ch in (f if f != "-" else ""):
+                ops.append({"I": qp.Identity, "X": qp.X, "Y": qp.Y, "Z": qp.Z}[ch](wr))
+                m = pm_matmul(m, REFP[ch])
+            mats.append(m)
+        full = pm_eye(1)
+        for m in mats:
+            full = pm_kron(full, m)
+        op = ops[0] if len(ops) == 1 else qp.prod(*ops)
+        effective = {wr: ("I" if f in ("-", "I", "XX", "ZZ") else f.replace("I", "")) for wr, f in zip(wires, spec)}
+        return op, full, effective
+
+    def gates_matrix(gates, wires):
+        U = pm_eye(2 ** len(wires))
+        for g in gates:
+            if type(g).__name__ not in ("RX", "RY") or len(g.wires) != 1:
+                raise ValueError(f"unexpected diagonalising gate {g}")
+            U = pm_matmul(pmat(qp.matrix(g, wire_order=wires)), U)
+        return U
+
+    def diag_ok(D, P_eff, coeff, wires):
+        """D is coeff times a word with Z exactly on the wires where P is not the identity, nothing but Z / Identity"""
+        rep = D.pauli_rep
+        if rep is None or len(rep) != 1:
+            return "not a single Pauli word"
+        (pw, c), = rep.items()
+        want = {wr for wr, ch in P_eff.items() if ch != "I"}
+        if any(v != "Z" for v in dict(pw).values()) or set(dict(pw)) != want:
+            return f"diagonal word {dict(pw)}: expected Z exactly on {sorted(map(str, want))}"
+        if complex(c) != complex(coeff):
+            return f"coefficient {c} instead of {coeff}"
+        return None
+
+    def one_word(spec, wires, coeff=None):
+        op, Pm, eff = build(spec, wires)
+        if coeff is not None:
+            op = coeff * op
+            Pm = np.vectorize(lambda x: x * to_poly_const(coeff), otypes=[object])(Pm)
+        inp = dict(operator=repr(op), wires=list(map(str, wires)))
+        got = call(qp.pauli.diagonalize_pauli_word, op)
+        if got[0] != "ok":
+            return dict(inputs=inp, observed=repr(got), expected="a diagonal Pauli word")
+        D = got[1]
+        bad = diag_ok(D, eff, 1 if coeff is None else coeff, wires)
+        if bad:
+            return dict(inputs=inp, observed=f"{D!r}: {bad}", expected="Z exactly on the wires where the word is not the identity (same coefficient)")
+        grp = call(qp.pauli.diagonalize_qwc_pauli_words, [op])
+        if grp[0] != "ok" or len(grp[1]) != 2 or len(grp[1][1]) != 1:
+            return dict(inputs=inp, observed=repr(grp)[:300], expected="(diagonalising gates, [diagonal word])")
+        gates, (D2,) = grp[1]
+        U = gates_matrix(gates, wires)
+        lhs = pm_matmul(pm_matmul(U, Pm), pm_dag(U))
+        for Dk in (D, D2):
+            if not pm_eq(lhs, pmat(qp.matrix(Dk, wire_order=wires))):
+                return dict(inputs=inp, observed=dict(gates=[repr(g) for g in gates], diagonal=repr(Dk)), expected="U . P . U^dagger == D exactly")
+        return None
+
+    def to_poly_const(c):
+        from vf.symx.scalar import to_poly
+        return to_poly(c)
+
+    def diag_words():
+        wires = [0, "a", 2]
+        for spec in itertools.product(FACTORS, repeat=3):
+            if all(f == "-" for f in spec):
+                continue
+            bad = one_word(spec, wires)
+            if bad:
+                return bad
+        for spec in itertools.product(["-", "I", "X", "Y", "Z"], repeat=2):
+            if all(f == "-" for f in spec):
+                continue
+            if all(f in ("-", "I") for f in spec):
+                continue                                  # scalar multiples of the identity: their own obligation below
+            for coeff in (2.0, -0.5):
+                bad = one_word(spec, [1, 0], coeff)
+                if bad:
+                    return bad
+        return None
+
+    def diag_scaled_identity():
+        for spec in (("I", "-"), ("I", "I"), ("-", "I")):
+            for coeff in (2.0, -0.5):
+                bad = one_word(spec, [1, 0], coeff)
+                if bad:
+                    return bad
+        return None
+    plan.add(native_ob("C52/utils:diagonalize_pauli_word/scalar-multiple-of-identity-keeps-its-coefficient", diag_scaled_identity,
+                       "c * Identity is diagonalised to c * Identity (the member keeps its coefficient): U.P.U^dagger == D", "diagonalize_qwc_groupings", size_bounded=True))
+    plan.add(native_ob("C52/utils:diagonalize_pauli_word+diagonalize_qwc_pauli_words/all-words[<=3 wires, explicit identities, cancelling factors]", diag_words,
+                       "for every word on <= 3 wires (each wire: absent, explicit Identity, X, Y, Z, X.X, Z.Z, I.Y; also scalar multiples on 2 wires): D has Z exactly on "
+                       "the non-identity wires with the same coefficient, and U.P.U^dagger == D exactly for the returned gates", "diagonalize_qwc_groupings",
+                       size_bounded=True, timeout=1500))
+
+    def diag_groups():
+        wires = [0, 1]
+        words = [sp for sp in itertools.product(["-", "I", "X", "Y", "Z"], repeat=2) if not all(f == "-" for f in sp)]
+        for s1, s2 in itertools.product(words, repeat=2):
+            (o1, m1, e1), (o2, m2, e2) = build(s1, wires), build(s2, wires)
+            qwc = all(e1[w_] == e2[w_] or "I" in (e1[w_], e2[w_]) for w_ in wires)
+            got = call(qp.pauli.diagonalize_qwc_pauli_words, [o1, o2])
+            inp = dict(group=[repr(o1), repr(o2)])
+            if not qwc:
+                if got != ("raise", "ValueError"):
+                    return dict(inputs=inp, observed=repr(got)[:300], expected="ValueError: the words are not qubit-wise commuting")
+                continue
+            if got[0] != "ok":
+                return dict(inputs=inp, observed=repr(got), expected="(gates, diagonal words)")
+            gates, Ds = got[1]
+            U = gates_matrix(gates, wires)
+            for Pm, eff, D in zip((m1, m2), (e1, e2), Ds):
+                bad = diag_ok(D, eff, 1, wires)
+                if bad or not pm_eq(pm_matmul(pm_matmul(U, Pm), pm_dag(U)), pmat(qp.matrix(D, wire_order=wires))):
+                    return dict(inputs=inp, observed=dict(gates=[repr(g) for g in gates], diagonal=[repr(d) for d in Ds], problem=bad),
+                                expected="one set of gates maps EVERY member to its diagonal word: U . P_i . U^dagger == D_i")
+            gg = call(qp.pauli.diagonalize_qwc_groupings, [[o1, o2], [o2]])
+            if gg[0] != "ok" or len(gg[1][0]) != 2 or [repr(d) for d in gg[1][1][0]] != [repr(d) for d in Ds]:
+                return dict(inputs=inp, observed=repr(gg)[:300], expected="diagonalize_qwc_groupings applies diagonalize_qwc_pauli_words group by group")
+        return None
+    plan.add(native_ob("C52/utils:diagonalize_qwc_pauli_words+diagonalize_qwc_groupings/all-pairs[2 wires]", diag_groups,
+                       "every pair of words on 2 wires (explicit identities included): qwc pairs are diagonalised by ONE gate set with U.P_i.U^dagger == D_i; other pairs raise ValueError",
+                       "diagonalize_qwc_groupings", size_bounded=True, timeout=1500))
+    plan.size_bounds.append("diagonalisation: every word on <= 3 wires with 8 factor shapes per wire; every pair of words on 2 wires")
     return plan
